@@ -13,7 +13,7 @@ static GuardedBuf *g_narrow, *g_wide;
 static void fuzz_printf(const std::string &f) {
 	for(char ch : f) if(!ch) return; // format strings are C strings
 	Parsed P = tokenize(f);
-	for(auto &d : P.dirs) if(d.width > 20000 || d.prec > 20000) return; // output volume, not parsing
+	bool huge = false; for(auto &d : P.dirs) if(d.width > 20000 || d.prec > 20000) huge = true; // then the agent expands at most 1000 pad characters
 	if(P.pos_conflict) return;
 	if(P.any_positional && !P.pos_sizes_uniform) return; // known finding, demonstrated elsewhere
 	bool mixed = (P.any_positional && P.any_sequential) || P.weird;
@@ -29,7 +29,7 @@ static void fuzz_printf(const std::string &f) {
 	}
 	std::string z = f; z.push_back('\0');
 	GuardedBuf gf(z.data(), z.size());
-	run_frigg(gf.data(), slots);
+	run_frigg(gf.data(), slots, huge);
 }
 
 static void fuzz_fmt(const std::string &f, int which) {
